@@ -3,7 +3,7 @@
    (sequential part) and Proofs/RingConc*.v (interleavings). *)
 Require Import V.Base.MachineInt V.Generated.GenConsts V.Model.LogBase V.Model.Ring V.Spec.Fifo
                V.Oracle.C06Oracle V.Proofs.RingArith V.Proofs.RingSeq V.Proofs.RingRender V.Proofs.RingSeqRun
-               V.Proofs.C06OracleProofs.
+               V.Proofs.C06OracleProofs V.Model.RingThreads V.Proofs.RingConc V.Proofs.RingConcThm.
 Open Scope Z_scope.
 
 (* ---------------------------------------------------------------------------------------------
@@ -129,3 +129,58 @@ Example C06_example_run :
    OS (Ok 0);
    OD [(160, 16); (164, 1); (288, -16); (416, 16); (420, 1); (544, 1); (548, -2147483648)]].
 Proof. vm_compute. reflexivity. Qed.
+
+(* ---------------------------------------------------------------------------------------------
+   Interleavings: any number of producers (a list), one consumer, every schedule, at the granularity
+   of the shared-memory accesses the hook reports.  `Inv lo` is the inductive invariant of
+   Proofs/RingConc.v: the slots tile [head', tail) inside one capacity; every slot is either committed
+   (its positive length was written; it carries exactly a command of its owner's program, or padding)
+   or owned by exactly the producer that is between its compare-and-set and its commit, in the state
+   that producer's program counter dictates; head cache <= head <= head' <= tail <= head + capacity;
+   what the consumer has walked over in the read in progress is committed.
+   `reach lo` = reachable by any schedule as long as the tail stays within 2^30 bytes of lo (the code
+   truncates position differences to 32 bits; a head value staler than that is not covered). *)
+
+Theorem C06_conc_invariant : forall lo m c0 c, Inv lo c0 -> reach lo m c0 c -> Inv lo c.
+Proof. exact reach_inv. Qed.
+Print Assumptions C06_conc_invariant.
+
+Theorem C06_conc_step : forall lo m cfg tid cfg' e,
+  Inv lo cfg -> step m cfg tid = Some (cfg', e) -> in_window lo cfg' -> Inv lo cfg'.
+Proof. exact step_inv. Qed.
+Print Assumptions C06_conc_step.
+
+Theorem C06_conc_initial : forall R limits progs,
+  wf R -> Forall (Forall wreq_ok) progs -> 0 <= r_hc R <= two61 -> r_tail R + 2 * r_cap R <= r_hc R + two30 ->
+  Inv (r_hc R) (start R limits progs).
+Proof. exact inv_start. Qed.
+Print Assumptions C06_conc_initial.
+
+(* the consumer never passes a producer and the producers never lap the consumer *)
+Theorem C06_conc_order : forall lo cfg, Inv lo cfg ->
+  let R := g_ring cfg in
+  r_hc R <= r_head R /\ r_head R <= r_tail R /\ r_tail R <= r_head R + r_cap R.
+Proof. exact inv_order. Qed.
+Print Assumptions C06_conc_order.
+
+(* claims of distinct producers (any two different slots) never share a byte of the data area *)
+Theorem C06_conc_disjoint : forall lo cfg a b da db, Inv lo cfg ->
+  In a (r_slots (g_ring cfg)) -> In b (r_slots (g_ring cfg)) -> a <> b ->
+  0 <= da < s_span a -> 0 <= db < s_span b ->
+  s_pos a mod r_cap (g_ring cfg) + da <> s_pos b mod r_cap (g_ring cfg) + db.
+Proof. exact inv_disjoint. Qed.
+Print Assumptions C06_conc_disjoint.
+
+(* a record is visible to the consumer only after its positive length was written *)
+Theorem C06_conc_visible : forall lo cfg hd bytes msgs acc, Inv lo cfg ->
+  c_pc (g_cons cfg) = CReadHdr hd bytes msgs acc ->
+  exists used rest, r_slots (g_ring cfg) = used ++ rest /\ span_sum used = bytes /\
+    Forall (fun s => 0 < s_len s) used /\ acc = msgs_of used.
+Proof. exact inv_visible. Qed.
+Print Assumptions C06_conc_visible.
+
+(* no checked operation of any thread ever leaves its range (no thread panics) *)
+Theorem C06_conc_no_panic : forall lo cfg, Inv lo cfg ->
+  c_pc (g_cons cfg) <> CPanic /\ (forall i ps, nth_error (g_prods cfg) i = Some ps -> p_pc ps <> PPanic).
+Proof. exact inv_no_panic. Qed.
+Print Assumptions C06_conc_no_panic.
